@@ -127,12 +127,14 @@ class StateMachineMatcher:
                                 return rule, result
                         elif (
                             not rule.strict_slashes
-                            and websocket == rule.websocket
                             and _convert(rule, values) is not None
                         ):
                             # The rule matches without the slash, only the
-                            # method is wrong.
-                            have_match_for.update(rule.methods)  # type: ignore[arg-type]
+                            # method or the websocket kind is wrong.
+                            if rule.methods is not None and method not in rule.methods:
+                                have_match_for.update(rule.methods)
+                            else:
+                                websocket_mismatch = True
                 return None
 
             part = parts[0]
